@@ -3,6 +3,7 @@ CONSTANTS
   Names <- MCNames
   Passwords <- MCPasswords
   BlobSlots <- MCBlobSlots
-INVARIANTS TypeOK KeyContract ExportImport BlobsGenuine
+  GivenKeys <- MCGivenKeys
+INVARIANTS TypeOK KeyContract ExportImport ImportPrivContract BlobsGenuine
 PROPERTIES Stable
 CHECK_DEADLOCK FALSE
